@@ -802,6 +802,39 @@ impl<'a> Gen<'a> {
                 self.line("end");
                 self.line("ext_p(\"dead\")");
             }
+            28 | 29 if self.f.refactor && self.rng.chance(1, 3) => {
+                match self.rng.below(3) {
+                    0 => {
+                        // a method definition that lists `self` explicitly: two parameters named self
+                        self.line("local acct = { handlers = {} }");
+                        self.line("function acct.handlers:on_event(self, payload) ext_p(\"event\", type(self), self, payload) return payload end");
+                        self.line("ext_p(acct.handlers:on_event(\"explicit\", 42))");
+                    }
+                    1 => {
+                        // math.sqrt of an operator expression in statement position: metamethods of the operand run
+                        self.line("local mv = setmetatable({}, { __add = function(l, r) ext_p(\"add\") return 4 end, __unm = function() ext_p(\"unm\") return 9 end, __index = function(_, k) ext_p(\"index\", k) return 16 end })");
+                        match self.rng.below(3) {
+                            0 => self.line("math.sqrt(mv + mv)"),
+                            1 => self.line("math.sqrt(-mv)"),
+                            _ => self.line("math.sqrt(mv.total)"),
+                        }
+                    }
+                    _ => {
+                        // a declaration without value followed by one that reads the same name: the read sees the
+                        // fresh nil, not an outer variable of that name
+                        self.line("local cache = ext_n(1)");
+                        self.line("do");
+                        self.indent += 1;
+                        self.line("local cache");
+                        self.line("local hit = cache");
+                        self.line("local limit");
+                        self.line("local effective = limit or 10");
+                        self.line("ext_p(hit, effective)");
+                        self.indent -= 1;
+                        self.line("end");
+                    }
+                }
+            }
             28 | 29 if self.f.refactor => {
                 // consecutive locals whose initialisers may mention earlier ones
                 let e1 = self.expr(Ty::Num, 1);
@@ -825,7 +858,35 @@ impl<'a> Gen<'a> {
                 }
             }
             30 | 31 if self.f.removal => {
-                match self.rng.below(8) {
+                match self.rng.below(12) {
+                    8 => match self.rng.below(3) {
+                        // table-call syntax: keys of [k] = v entries are evaluated too
+                        0 => self.line("debug.profilebegin { [ext_n(1)] = ext_n(2) }"),
+                        1 => self.line("assert { ext_n(1), [ext_n(2)] = true, name = ext_n(3), [ext_n(4)] = ext_n(5) }"),
+                        _ => {
+                            let r = self.fresh(Ty::Any);
+                            self.line(&format!("local {} = debug.profileend {{ [ext_n(7)] = 1, ext_n(8) }}", r));
+                        }
+                    },
+                    9 => {
+                        // several effectful arguments in expression position: evaluation order is observable
+                        let r = self.fresh(Ty::Any);
+                        self.line(&format!("local {} = debug.profilebegin(ext_n(1), \"constant\", ext_n(2), ext_n(3))", r));
+                        self.line("ext_p((debug.profileend(ext_n(4), ext_n(5))))");
+                    }
+                    10 => {
+                        // method calls on the removed names are not calls to those functions (they fail at run time
+                        // in the reference environment, which must stay observable)
+                        match self.rng.below(3) {
+                            0 => self.line("ext_p(pcall(function() local snapshot = assert:snapshot() return snapshot end))"),
+                            1 => self.line("ext_p(pcall(function() return debug.profilebegin:bind(ext_n(1)) end))"),
+                            _ => self.line("ext_p(pcall(function() if assert:has_failed() then return 1 end return 2 end))"),
+                        }
+                    }
+                    11 => {
+                        // keys that are only evaluated, in a positional / field / index mix
+                        self.line("debug.profilebegin({ ext_n(1), k = ext_n(2), [ext_n(3)] = 1 }, ext_n(4))");
+                    }
                     0 => {
                         let c = self.expr(Ty::Bool, 1);
                         self.line(&format!("assert({} or true, \"message\")", c));
